@@ -37,11 +37,11 @@ def main():
                         'with_failing_input': any(l.startswith('VIOLATION') and 'no-failing-input-found' not in l for l in lines)}
         finally:
             sh(['git', '-C', '/repo', 'checkout', '--', '.'])
-            # the check regenerated the tie-A fragments from the changed source: bring them back to the restored tree
-            for g in ('mem', 'bst', 'map', 'core'):
-                sh(['python3', os.path.join(V, 'extract', 'gen_%s.py' % g)])
         print(mid, res[mid].get('exit'), ' | '.join(res[mid].get('reported', [])[:2])[:200], flush=True)
         json.dump(res, open(out, 'w'), indent=1)
+    # the checks regenerated the tie-A fragments from the changed sources: bring them back to the restored tree
+    for g in ('mem', 'bst', 'map', 'core'):
+        sh(['python3', os.path.join(V, 'extract', 'gen_%s.py' % g)])
 
 
 if __name__ == '__main__':
